@@ -619,6 +619,8 @@ func c02(p *model.Prog, r *report.Result) {
 	}
 	c02r67(p, r)
 	w5HevcKey(p, r, "C02.R11")
+	w7AacSeqHeaderCodec(p, r, "C02.R12")
+	w7HevcCacheSets(p, r, "C02.R13")
 	c16r10(p, r, "C02.R8")
 	c02r9(p, r)
 	c02r10(p, r)
